@@ -136,40 +136,75 @@ class _TimeShim:
 
 
 _PRISTINE = None
+_CONTAINERS = (set, dict, list, bytearray)
 
 
-def _class_level_containers():
-    """(cls, name, pristine shallow copy) for every mutable container stored on an msmart class.
+def _is_data_attr(k, v):
+    import inspect
+    if k.startswith("__"):
+        return False
+    if isinstance(v, (property, classmethod, staticmethod)) or inspect.isclass(v) or callable(v):
+        return False
+    if inspect.isfunction(v) or inspect.ismethoddescriptor(v) or inspect.isdatadescriptor(v):
+        return False
+    return True
 
-    A run is a fresh process: state a class accumulates during one run (a shared set, a cache dict) must not
-    leak into the next one, whether the library has such state today or a change introduces it."""
+
+def _msmart_classes():
+    import enum
+    import inspect
+    ns = import_msmart()
+    seen = {}
+    mods = [ns.lan, ns.base_device, ns.cloud, ns.discover, ns.cli, ns.frame, ns.const, ns.command, ns.acdevice]
+
+    def visit(cls):
+        if id(cls) in seen or issubclass(cls, enum.Enum):
+            return
+        seen[id(cls)] = cls
+        for v in list(vars(cls).values()):
+            if inspect.isclass(v):
+                visit(v)
+    for m in mods:
+        for v in list(vars(m).values()):
+            if inspect.isclass(v) and getattr(v, "__module__", "").startswith("msmart"):
+                visit(v)
+    return list(seen.values())
+
+
+def _class_level_state():
+    """{cls: {name: pristine value}} for every data attribute stored on an msmart class.
+
+    A run is a fresh process: state a class accumulates during one run (a shared set, a cache, a remembered
+    digest) must not leak into the next one, whether the library has such state today or a change introduces it."""
     global _PRISTINE
     if _PRISTINE is None:
         import copy
-        import enum
-        import inspect
-        ns = import_msmart()
-        out = []
-        seen = set()
-        mods = [ns.lan, ns.base_device, ns.cloud, ns.discover, ns.cli, ns.frame, ns.const, ns.command, ns.acdevice]
-
-        def visit(cls):
-            if id(cls) in seen or issubclass(cls, enum.Enum):
-                return
-            seen.add(id(cls))
+        out = {}
+        for cls in _msmart_classes():
+            d = {}
             for k, v in list(vars(cls).items()):
-                if k.startswith("__"):
-                    continue
-                if isinstance(v, (set, dict, list, bytearray)):
-                    out.append((cls, k, copy.copy(v)))
-                elif inspect.isclass(v):
-                    visit(v)
-        for m in mods:
-            for v in list(vars(m).values()):
-                if inspect.isclass(v) and getattr(v, "__module__", "").startswith("msmart"):
-                    visit(v)
+                if _is_data_attr(k, v):
+                    d[k] = copy.copy(v) if isinstance(v, _CONTAINERS) else v
+            out[cls] = d
         _PRISTINE = out
     return _PRISTINE
+
+
+def _reset_class_state():
+    import copy
+    for cls, d in _class_level_state().items():
+        for k, v in list(vars(cls).items()):
+            if _is_data_attr(k, v) and k not in d:
+                try:
+                    delattr(cls, k)           # attribute created at run time
+                except (AttributeError, TypeError):
+                    pass
+        for k, v in d.items():
+            cur = vars(cls).get(k, None)
+            if isinstance(v, _CONTAINERS):
+                setattr(cls, k, copy.copy(v))
+            elif cur is not v:
+                setattr(cls, k, v)
 
 
 class Seams:
@@ -197,24 +232,17 @@ class Seams:
         self._set(ns.cloud, "token_urlsafe", lambda n=32: rnd.bytes("token_urlsafe", n).hex())
         self._set(ns.cloud.BaseCloud, "DEVICE_ID", rnd.bytes("cloud_device_id", 8).hex())
         # process-global state: a run is a fresh process
-        import copy
-        for cls, name, pristine in _class_level_containers():
-            self._set(cls, name, copy.copy(pristine))
+        _reset_class_state()
         self._set(ns.command.Command, "_message_id", self.msg_id_start)
         D = ns.discover.Discover
         for name, val in (("_lock", None), ("_cloud", None), ("_account", None), ("_password", None),
                           ("_auto_connect", False), ("_region", ns.const.DEFAULT_CLOUD_REGION)):
             self._set(D, name, val)
-        self._had_gac = "_get_async_client" in D.__dict__
-        if self._had_gac:
-            self._set(D, "_get_async_client", None)
         return self
 
     def __exit__(self, *exc):
         for obj, name, value in reversed(self._saved):
             setattr(obj, name, value)
         self._saved.clear()
-        D = import_msmart().discover.Discover
-        if not self._had_gac and "_get_async_client" in D.__dict__:
-            delattr(D, "_get_async_client")
+        _reset_class_state()
         return False
